@@ -51,7 +51,9 @@ package response
 
 //@ func (*NetconfResponse).record1dot0 [C02]
 //@   modifies r.Result
-//@   ensures #exact-1.0 r.Result == trimSpace(trimSuffix(trimSpace(trimPrefix(old(r.RawResult), xmlHeader)), v1Dot0Delim))
+// from the property: the payload without surrounding white space, XML declaration and delimiter - the declaration is looked
+// for AFTER the leading white space is gone (the newline a server sends after the previous delimiter may be the first byte)
+//@   ensures #exact-1.0 r.Result == trimSpace(trimSuffix(trimSpace(trimPrefix(trimSpace(old(r.RawResult)), xmlHeader)), v1Dot0Delim))
 
 // ---- C13: failure marking ------------------------------------------------------------------------
 
@@ -111,7 +113,7 @@ package response
 //@   requires r.Failed == nil
 //@   modifies r.EndTime, r.ElapsedTime, r.RawResult, r.Result, r.Failed, r.ErrorMessages, r.WarningErrorMessages, parseErr11, payload11, alloc()
 //@   ensures #raw r.RawResult == b
-//@   ensures #result-1.0 r.NetconfVersion == "1.0" ==> r.Result == trimSpace(trimSuffix(trimSpace(trimPrefix(b, xmlHeader)), v1Dot0Delim))
+//@   ensures #result-1.0 r.NetconfVersion == "1.0" ==> r.Result == trimSpace(trimSuffix(trimSpace(trimPrefix(trimSpace(b), xmlHeader)), v1Dot0Delim))
 //@   ensures #failed-1.0 r.NetconfVersion == "1.0" ==> ((r.Failed != nil) <==> containsAnyB(b, r.FailedWhenContains))
 //@   ensures #result-1.1 r.NetconfVersion == "1.1" && !parseErr11 ==> r.Result == payload11
 //@   ensures #failed-on-parse-error-1.1 r.NetconfVersion == "1.1" && parseErr11 ==> r.Failed != nil
